@@ -727,6 +727,19 @@ def refresh_covers_unfinished(ctx, rule):
                    ctx.construct(f, extra='every waiting task'),
                    'the refresh does not act on WAITING tasks (%s)'
                    % sorted(map(str, tvals)), ctx.loc(f, c))
+    # ... and a WAITING task gets as far as the lock: the cheap check made
+    # before taking it (its state is re-read under the lock, so the values
+    # above say nothing about this one) lets WAITING through
+    for n, c in U.calls_in(cfg, 'refresh'):
+        if not (c.args and norm(c.args[0]) == 'task_ex'):
+            continue
+        before = {v[2] for v in IN[n.id] if v[1] is not None}
+        rule.check('WAITING' in before,
+                   ctx.construct(f, extra='waiting tasks reach the lock'),
+                   'a WAITING task does not get past the check made before '
+                   'the lock is taken (states that do: %s): its refresh '
+                   'returns without looking at the join'
+                   % sorted(map(str, before)), ctx.loc(f, c))
     # resume re-checks every WAITING task, after the commands were dispatched
     rs = prog.func('mistral.engine.workflows.Workflow.resume')
     rcfg = ctx.cfg(rs)
